@@ -1,6 +1,9 @@
 # table of claimed checks; exec'd by tools_manifest.py
 TB = ("Trusted base: CPython 3.12, the harness's reference models under /verif/rv/model and the workload "
-      "generators; nothing is proved - the verdict covers exactly the executions counted in the evidence file. ")
+      "generators; nothing is proved - the verdict covers exactly the executions counted in the evidence file. "
+      "FmtStr operands are built through the public API by a COLD route and a WARM route (every memoised view filled, "
+      "1 in 48 first uses hit by an injected KeyboardInterrupt), results are judged through a fresh copy and through "
+      "their own len/.s/str; the repository's own tests and doctests run under the same monitors where applicable. ")
 EX = "exploration"
 
 add("C01", EX, "runtime monitor: independent SGR interpreter on str(f) vs construction spec",
@@ -8,7 +11,7 @@ add("C01", EX, "runtime monitor: independent SGR interpreter on str(f) vs constr
     "the real code and the terminal string is interpreted by an independent SGR model; multi-run strings sampled. "
     "Exhaustive over attribute sets, sampled over texts and run layouts.",
     TB + "Text free of ESC/0x9B as the quantifier says.")
-add("C03", EX, "runtime monitor: decoder facts (prefix trie + incremental codecs) at every node of the decoder's decision tree; end-to-end equality through Input over a pty",
+add("C03", EX, "runtime monitor: decoder facts (prefix trie + incremental codecs) at every node of the decoder's decision tree; end-to-end equality through Input over a pty; forked crash-point enumeration inside a decode in progress",
     "The real get_key is driven byte by byte over its whole decision tree for ascii and latin-1 (complete) and the "
     "ESC subtree/two levels of utf-8, every table sequence x every byte, table pairs, Unicode scalars (all in "
     "thorough), random chunked streams, and the same reads through Input.send over a pty. One recorded finding "
@@ -19,7 +22,7 @@ add("C04", EX, "runtime monitor: cell-grid reference model stepped alongside the
     "Random assignment histories on small arrays with a grid model compared cell by cell after every step, must-raise "
     "cases checked for no visible change; thorough adds all regions x row-length classes on pre-filled 3x3 arrays.",
     TB + "Long rows landing on never-written cells and zero-area regions are don't-care (counted).")
-add("C05", EX, "runtime monitor: round trip and grammar strings compared per cell with the SGR interpreter",
+add("C05", EX, "runtime monitor: round trip and grammar strings compared per cell with the SGR interpreter; forked crash-point enumeration over the process's first parse",
     "All attribute sets round-tripped with newline/tab/wide text, random multi-run round trips, random strings of "
     "the SGR grammar interpreted by the reference interpreter and compared with the parse result.",
     TB + "Grammar restricted to the supported codes and the empty parameter list (the quantifier).")
@@ -77,7 +80,7 @@ add("C07", EX, "runtime monitor: reference terminal with scrollback + origin tra
     "Histories on a real CursorAwareWindow with scripted cursor-query replies from the model: history above the window, "
     "window rows, scroll count, return value and cursor cell checked after every render and after exit.",
     TB + "Rows not longer than the width; DSR replies come from the model.")
-add("C08", EX, "runtime monitor: client-boundary history recording + offline history checker (conservation, exactly-once, ordering, timing lower bounds) with yield injection",
+add("C08", EX, "runtime monitor: client-boundary history recording + offline history checker (conservation, exactly-once, ordering, timing lower bounds); yield injection; ping-pong and paired-trigger schedule stress",
     "Sequential and concurrent histories against a real Input over a byte-transparent pty; an offline checker decides "
     "conservation/order of bytes, exactly-once per trigger, scheduled-event order, timeouts, paste segmentation, name-mode "
     "segmentation across the 1024-byte read size; sys.monitoring yield injection shakes thread schedules and distinct "
